@@ -95,3 +95,13 @@ fn k_file_entry_index_cpio() {
     std::mem::forget(entries);
 }
 
+
+/// K-STRIPPED-HEADER: the stripped entry header is 16 bytes: magic, 8 hex digits of the index, 2 NUL
+/// (one concrete index: formatting a symbolic u32 is beyond CBMC here).
+#[kani::proof]
+#[kani::unwind(20)]
+fn k_stripped_header() {
+    let h = stripped_cpio_header(0x1234abcd);
+    assert!(h.len() == 16);
+    assert!(h[0..6] == *b"07070X" && h[6..14] == *b"1234abcd" && h[14] == 0 && h[15] == 0);
+}
